@@ -601,8 +601,11 @@ def block_diagonalize(
                         if (
                             not upper
                             or not lower
-                            or {tuple(-power for power in term) for term in upper.terms}
-                            != {tuple(term) for term in lower.terms}
+                            or {
+                                _rename_wildcards(tuple(-power for power in term))
+                                for term in upper.terms
+                            }
+                            != {_rename_wildcards(tuple(term)) for term in lower.terms}
                         ):
                             raise ValueError(
                                 "The values of fully_diagonalize dictionary must be"
@@ -1521,6 +1524,23 @@ def _sympy_to_BlockSeries(
 def _operator_order(op: sympy.Expr) -> tuple[int, str]:
     """Sorting key that defines the order of operators in number ordered forms."""
     return (generator_types.index(type(op)), str(op.name))
+
+
+def _rename_wildcards(powers: tuple) -> tuple:
+    """Rename the symbols in the powers of a mask rule by their order of appearance.
+
+    Two rules that differ only by the names of their wildcard symbols are the same.
+    """
+    wildcards = []
+    powers = tuple(sympy.sympify(power) for power in powers)
+    for power in powers:
+        for symbol in sorted(power.free_symbols, key=str):
+            if symbol not in wildcards:
+                wildcards.append(symbol)
+    names = {
+        symbol: sympy.Symbol(f"_wildcard_{k}") for k, symbol in enumerate(wildcards)
+    }
+    return tuple(power.xreplace(names) for power in powers)
 
 
 def _is_not_hermitian(expr: sympy.Expr | sympy.MatrixBase) -> bool:
